@@ -164,7 +164,7 @@ func H10_race_replay() {
 			wg.Add(1)
 			go func() {
 				defer wg.Done()
-				for i := 0; i < 30; i++ {
+				for i := 0; i < 12; i++ {
 					h10Call(e.s, k, false)
 				}
 			}()
